@@ -22,6 +22,12 @@ pub struct Case {
   pub mix: SelSpec,
   /// custom transcript: (label, absorbed data)
   pub transcript: Option<(Hx, Hx)>,
+  /// the custom transcript's security parameter is 256 instead of 128 bits
+  #[serde(default)]
+  pub sec256: bool,
+  /// further operations on the custom transcript: (kind: ad / meta_ad / key / prf / send_clr, data)
+  #[serde(default)]
+  pub tr_ops: Vec<(u8, Hx)>,
 }
 
 fn strat(tier: Tier) -> BoxedStrategy<Case> {
@@ -34,9 +40,15 @@ fn strat(tier: Tier) -> BoxedStrategy<Case> {
     0u8..4,
     sel_spec(),
     sel_spec(),
-    proptest::option::weighted(0.2, (small_bytes(12), small_bytes(40))),
+    (
+      proptest::option::weighted(0.2, (prop_oneof![3 => small_bytes(12), 1 => Just(Hx(b"adss".to_vec()))], small_bytes(40))),
+      proptest::bool::weighted(0.4),
+      proptest::collection::vec((0u8..5, small_bytes(20)), 0..4),
+    ),
   )
-    .prop_map(|(t, msg, coins, groups, extra, sel, mix, transcript)| Case {
+    .prop_map(|(t, msg, coins, groups, extra, sel, mix, (transcript, sec256, tr_ops))| Case {
+      sec256,
+      tr_ops,
       t,
       msg,
       coins,
@@ -78,8 +90,28 @@ fn oracle(c: &Case, st: &mut Stats) -> Result<(), String> {
   });
   // custom transcript: shares made under it must be rejected by recover (which assumes none)
   if let Some((label, data)) = &c.transcript {
-    let mut s = Strobe::new(&label.0, SecParam::B128);
-    s.ad(&data.0, false);
+    let mut s = Strobe::new(&label.0, if c.sec256 { SecParam::B256 } else { SecParam::B128 });
+    // (label "adss" at 128 bits with nothing absorbed would be the default transcript itself)
+    let same_as_default = label.0 == b"adss" && !c.sec256 && data.is_empty() && c.tr_ops.is_empty();
+    if !data.is_empty() || same_as_default {
+      s.ad(&data.0, false);
+    }
+    for (kind, d) in &c.tr_ops {
+      match kind % 5 {
+        0 => s.ad(&d.0, false),
+        1 => s.meta_ad(&d.0, false),
+        2 => s.key(&d.0, false),
+        3 => {
+          let mut buf = d.0.clone();
+          s.prf(&mut buf, false);
+        }
+        _ => s.send_clr(&d.0, false),
+      }
+    }
+    st.class(if c.sec256 { "custom-transcript-256-bit" } else { "custom-transcript-128-bit" });
+    if label.0 == b"adss" {
+      st.class("custom-transcript-with-the-default-label");
+    }
     let shares: Vec<adss::Share> = (0..n)
       .map(|_| commune(c, Some(s.clone())).share().map_err(|e| e.to_string()))
       .collect::<Result<_, _>>()?;
@@ -209,7 +241,7 @@ pub fn property() -> Property {
   Property {
     id: "C16",
     level: "exploration",
-    rule: "generated (t in 0..128, message and coins of length 0 / block boundaries / up to 3 kB quick, 100 kB thorough, arbitrary content, n = t + 0..3 independent Commune::new(..).share() calls, optional custom Strobe transcript). Oracle: shares byte-identical outside S; points on one polynomial (bigint interpolation of t predicts the others); a generated selection of t distinct recovers exactly the message, t-1 distinct do not; the recovered Commune re-shares to shares identical outside S and mixed old/new selections recover; t = 0 never recovers; custom-transcript shares are rejected. Non-trivial: t >= 2 with an old+new mix, or an empty / block-boundary length, or a custom transcript.",
+    rule: "generated (t in 0..128, message and coins of length 0 / block boundaries / up to 3 kB quick, 100 kB thorough, arbitrary content, n = t + 0..3 independent Commune::new(..).share() calls, optional custom Strobe transcript: generated label (sometimes the default one), 128- or 256-bit security parameter, absorbed data and a script of further ad / meta_ad / key / prf / send_clr operations). Oracle: shares byte-identical outside S; points on one polynomial (bigint interpolation of t predicts the others); a generated selection of t distinct recovers exactly the message, t-1 distinct do not; the recovered Commune re-shares to shares identical outside S and mixed old/new selections recover; t = 0 never recovers; custom-transcript shares are rejected. Non-trivial: t >= 2 with an old+new mix, or an empty / block-boundary length, or a custom transcript.",
     assumptions: vec!["share points come from OsRng"],
     subs: vec![prop_sub("determinism_and_reshare", 3000, 60000, strat, oracle)],
   }
